@@ -19,7 +19,7 @@ BtLeaf(v) == [leaf |-> <<v>>, kids |-> <<>>]
 BtFork(l, r) == [leaf |-> <<>>, kids |-> <<l, r>>]
 AugV(es) == [es |-> es, post |-> <<>>]          \* augmented-dictionary value composed here: fork extras are ForkExtraV's
 
-RECURSIVE Menu(_), Base(_), Vary(_), BaseAlt(_), VaryAlt(_), Rich(_, _), RichAlt(_, _)
+RECURSIVE Menu(_), Base(_), Vary(_), BaseAlt(_), VaryAlt(_), VaryAltAll(_), Rich(_, _), RichAlt(_, _)
 Menu(t) ==
     CASE t.k \in {"U", "I"} -> {Zeros(t.n), Ones(t.n), Msb(t.n), NatBits(1, t.n)}
       [] t.k = "Bits" -> {Zeros(t.n), Ones(t.n), Msb(t.n)}
@@ -86,7 +86,8 @@ Vary(t) ==
 SetFlag(a, rec, f) == CASE f.t.k = "If" -> [rec EXCEPT ![f.t.fl] = <<1>>]
                         [] f.t.k = "IfBit" -> [rec EXCEPT ![f.t.fl] = [i \in 1..Len(@) |-> IF i = Len(@) - f.t.bit THEN 1 ELSE @[i]]]
                         [] OTHER -> rec
-VaryAlt(a) == {BaseAlt(a)}
+VaryAlt(a) == {v \in VaryAltAll(a) : ConsOk(a, v)}
+VaryAltAll(a) == {BaseAlt(a)}
     \cup UNION {{[BaseAlt(a) EXCEPT ![a.fs[i].name] = x] : x \in Vary(a.fs[i].t)} : i \in 1..Len(a.fs)}
     \cup UNION {{SetFlag(a, [BaseAlt(a) EXCEPT ![a.fs[i].name] = x], a.fs[i]) : x \in Vary(a.fs[i].t)} :
                     i \in {j \in 1..Len(a.fs) : a.fs[j].t.k \in {"If", "IfBit"}}}
@@ -148,6 +149,7 @@ PairVary(a, base) ==
     LET n == Len(a.fs)
         alt(i) == Two(Vary(a.fs[i].t) \ {base[a.fs[i].name]})
     IN UNION {{[base EXCEPT ![a.fs[i].name] = x, ![a.fs[j].name] = y] : x \in alt(i), y \in alt(j)} : i \in 1..n, j \in 1..n} \ {base}
-PairValues(nm) == UNION {PairVary(Schema[nm][i], BaseAlt(Schema[nm][i])) \cup PairVary(Schema[nm][i], RichAlt(Schema[nm][i], RichFuel)) : i \in 1..Len(Schema[nm])}
-TopValues(nm) == Values(nm) \cup UNION {RichVary(Schema[nm][i]) \cup OptCombos(Schema[nm][i]) : i \in 1..Len(Schema[nm])}
+PairValues(nm) == UNION {{v \in PairVary(Schema[nm][i], BaseAlt(Schema[nm][i])) \cup PairVary(Schema[nm][i], RichAlt(Schema[nm][i], RichFuel)) : ConsOk(Schema[nm][i], v)}
+                         : i \in 1..Len(Schema[nm])}
+TopValues(nm) == Values(nm) \cup UNION {{v \in RichVary(Schema[nm][i]) \cup OptCombos(Schema[nm][i]) : ConsOk(Schema[nm][i], v)} : i \in 1..Len(Schema[nm])}
 =============================================================================
